@@ -5,7 +5,7 @@
     instance on every run. *)
 From Coq Require Import NArith ZArith QArith Qabs List Bool.
 From SV Require Import Bin.Struct Fmt.DmxCodes Fmt.DmxCodesProofs Fmt.DmxBin Fmt.DmxBinProofs Fmt.DmxKv1 Fmt.DmxKv1Proofs
-  Fmt.DmxScalar Fmt.DmxScalarProofs Fmt.DmxTyped Fmt.DmxTypedProofs Text.Str Text.Escape Text.Tokenizer Text.TokGen Fmt.DmxKv2 Fmt.DmxKv2Proofs Fmt.DmxKv2Nested Fmt.DmxKv2NestedProofs Fmt.DmxKv2Inst Num.Dec6 Fmt.DmxValText Fmt.DmxValTextProofs Fmt.DmxHeader Fmt.DmxHeaderProofs Fmt.DmxMembers Fmt.DmxMembersProofs Fmt.DmxMembersParse Fmt.DmxMembersParseProofs Fmt.DmxKv1Sel Fmt.DmxKv1SelProofs Gen.DmxCodes_gen.
+  Fmt.DmxScalar Fmt.DmxScalarProofs Fmt.DmxTyped Fmt.DmxTypedProofs Text.Str Text.Escape Text.Tokenizer Text.TokGen Fmt.DmxKv2 Fmt.DmxKv2Proofs Fmt.DmxKv2Nested Fmt.DmxKv2NestedProofs Fmt.DmxKv2Inst Num.Dec6 Fmt.DmxValText Fmt.DmxValTextProofs Fmt.DmxHeader Fmt.DmxHeaderProofs Fmt.DmxMembers Fmt.DmxMembersProofs Fmt.DmxMembersParse Fmt.DmxMembersParseProofs Fmt.DmxMembersKv2 Fmt.DmxMembersKv2Proofs Fmt.DmxKv1Sel Fmt.DmxKv1SelProofs Gen.DmxCodes_gen.
 Import ListNotations.
 
 (** The premises of the theorems below, for the configuration generated from today's source.  The check proves
@@ -465,6 +465,57 @@ Theorem reader_key_as_written_refuted :
 Proof. exact key_as_written_refuted. Qed.
 Theorem reader_dict_premises_satisfiable : parse_keys_ok good_parse && init_member_ok good_parse = true /\ elem_names_ok ascii_lower ab_elem.
 Proof. split; [exact good_parse_ok | exact names_ok_example]. Qed.
+
+(** * KeyValues2 at the level of the dict (round 3)
+
+    [_export_kv2] writes the line ["name" "string" <Element.name>] and then one record per member its loop keeps (skip
+    test [attr.name == 'name']: the case-preserved name, read from the source); [_parse_kv2_element] sends a record that
+    passes its name test to the [name] setter and stores every other record under KEY. *)
+
+(** What the reader builds from what the writer wrote for a dict keyed by the casefolded names: a name member holding
+    Element.name, then every member keyed other than "name" under its key, in order — for either name test and every
+    skip test that skips only the member keyed "name" ([kv2_filter_ok]). *)
+Theorem kv2_dict_read_of_written : forall fold t cc f (m : members) block_name,
+  fold s_name = s_name -> name_getter_ok cc = true -> kv2_filter_ok f = true ->
+  keys_nodup m -> keyed_by_fold fold m -> name_is_string m ->
+  exists an, adata an = VStr (Scalar (rname cc m)) /\ fold (aname an) = s_name /\
+    kv2_read fold t KFolded block_name (kv2_written cc f m) = (s_name, an) :: records (FKeyIs s_name) m.
+Proof. exact kv2_read_written. Qed.
+
+(** Hence the element read denotes the element written: same name, same attribute records in the same order ... *)
+Theorem kv2_dict_roundtrip : forall fold t cc f (r : relem) block_name,
+  fold s_name = s_name -> name_getter_ok cc = true -> kv2_filter_ok f = true ->
+  keys_nodup (r_members r) -> keyed_by_fold fold (r_members r) -> name_is_string (r_members r) ->
+  abstract cc {| r_type := r_type r; r_uuid := r_uuid r; r_members := kv2_read fold t KFolded block_name (kv2_written cc f (r_members r)) |}
+  = abstract cc r.
+Proof. exact kv2_members_roundtrip. Qed.
+
+(** ... for every history of the mapping API on a fresh element that leaves the name member, if any, a string. *)
+Theorem kv2_dict_roundtrip_after_any_history : forall fold t cc f ops name ty uu block_name,
+  fold s_name = s_name -> name_getter_ok cc = true -> kv2_filter_ok f = true ->
+  let m := run_ops fold ops (init_members name) in
+  name_is_string m ->
+  abstract cc {| r_type := ty; r_uuid := uu; r_members := kv2_read fold t KFolded block_name (kv2_written cc f m) |}
+  = abstract cc {| r_type := ty; r_uuid := uu; r_members := m |}.
+Proof. exact kv2_members_roundtrip_after_history. Qed.
+
+(** [clear(); elem['NAME'] = 'x'; elem['Ab'] = 5]: with the skip test of _export_kv2 the member spelled NAME is written as a
+    record too and the reader stores it under "name" again: spelling kept; with the dict-key test of export_binary, or with
+    a casefolding name test in the reader, it comes back spelled "name".  All denote the same element. *)
+Theorem kv2_dict_name_spelling_example :
+  map fst kv2_hist_m = [s_name; [97; 98]%N] /\
+  name_is_string kv2_hist_m /\
+  option_map aname (mget s_name (kv2_read ascii_lower TExact KFolded [] (kv2_written good_cnt (FRealNameIs s_name) kv2_hist_m))) = Some name_upper /\
+  option_map aname (mget s_name (kv2_read ascii_lower TExact KFolded [] (kv2_written good_cnt (FKeyIs s_name) kv2_hist_m))) = Some s_name /\
+  option_map aname (mget s_name (kv2_read ascii_lower TFolded KFolded [] (kv2_written good_cnt (FRealNameIs s_name) kv2_hist_m))) = Some s_name /\
+  map fst (kv2_read ascii_lower TExact KFolded [] (kv2_written good_cnt (FRealNameIs s_name) kv2_hist_m)) = [s_name; [97; 98]%N].
+Proof. exact kv2_name_spelling_example. Qed.
+
+(** A loop that skips a member keyed otherwise fails [kv2_filter_ok] and loses that attribute. *)
+Theorem kv2_dict_skip_of_another_key_refuted :
+  kv2_filter_ok (FKeyIs [97; 98]%N) = false /\ kv2_filter_ok (FRealNameIs s_name) = true /\ kv2_filter_ok (FKeyIs s_name) = true /\
+  map fst (kv2_read ascii_lower TExact KFolded [] (kv2_written good_cnt (FKeyIs [97; 98]%N) kv2_hist_m)) = [s_name].
+Proof. exact kv2_skip_other_key_refuted. Qed.
 
 (** * from_kv1: which name of a leaf its two tests read (round 3)
 
